@@ -441,51 +441,46 @@ def r8_pragma_row_layout(ctx):
     referencing column, 4 = the referenced column)."""
     ctx.rule('R-C11.8')
     p = ctx.program
+    from ..util import through_copies
     m = p.module('db.sqlite3')
     n_reads = 0
     for f in m.all_funcs():
-        loops = []   # (for-node, pragma)
-        last = [None]
-
-        def scan(stmts):
-            for st in stmts:
-                if isinstance(st, ast.For):
-                    it = st.iter
-                    # the pragma executed in the iterable itself, or before
-                    pr = None
-                    for c in ast.walk(it):
-                        pr = _pragma_of(c) or pr
-                    uses_fetch = any(isinstance(c, ast.Call) and
-                                     call_name(c) in ('fetchall', 'fetchmany')
-                                     for c in ast.walk(it))
-                    if uses_fetch and (pr or last[0]) and \
-                            isinstance(st.target, ast.Name):
-                        loops.append((st, pr or last[0]))
-                    scan(st.body)
-                    scan(st.orelse)
-                    continue
-                for c in walk_no_nested(st):
-                    pr = _pragma_of(c)
-                    if pr:
-                        last[0] = pr
-                for blk in ('body', 'orelse', 'finalbody'):
-                    b = getattr(st, blk, None)
-                    if isinstance(b, list) and b and \
-                            isinstance(b[0], ast.stmt) and \
-                            not isinstance(st, ast.For):
-                        scan(b)
-                for h in getattr(st, 'handlers', []):
-                    scan(h.body)
-        scan(f.node.body)
+        # row sources in source order: for loops and comprehension generators
+        # over cursor.fetchall(); the pragma is the last one executed before
+        # (or inside) the iterable
+        events = []
+        for n in walk_no_nested(f.node):
+            pr = _pragma_of(n) if isinstance(n, ast.Call) else None
+            if pr:
+                events.append((n.lineno, n.col_offset, 'pragma', pr, n))
+            if isinstance(n, ast.For) and isinstance(n.target, ast.Name):
+                events.append((n.iter.lineno, n.iter.col_offset, 'rows',
+                               n.target.id, (n.iter, n)))
+            if isinstance(n, (ast.ListComp, ast.GeneratorExp, ast.SetComp,
+                              ast.DictComp)):
+                for gen in n.generators:
+                    if isinstance(gen.target, ast.Name):
+                        events.append((gen.iter.lineno, gen.iter.col_offset,
+                                       'rows', gen.target.id, (gen.iter, n)))
+        events.sort(key=lambda e: (e[0], e[1]))
+        last = None
+        sources = []   # (row var, scope node, pragma)
+        for _l, _c, kind, val, node in events:
+            if kind == 'pragma':
+                last = val
+            else:
+                it, scope = node
+                if any(isinstance(c, ast.Call) and
+                       call_name(c) in ('fetchall', 'fetchmany')
+                       for c in ast.walk(it)) and last:
+                    sources.append((val, scope, last))
         params = [x for x in f.params if x != 'self']
-        for loop, pragma in loops:
+        for row, scope, pragma in sources:
             layout = PRAGMA_LAYOUT.get(pragma)
             if layout is None:
                 continue
-            row = loop.target.id
-            # names bound from the row: name -> column index
             bound = {}
-            for st in ast.walk(loop):
+            for st in ast.walk(scope):
                 if isinstance(st, ast.Assign) and len(st.targets) == 1:
                     t, v = st.targets[0], st.value
                     if isinstance(v, ast.Subscript) and \
@@ -508,57 +503,78 @@ def r8_pragma_row_layout(ctx):
                             if isinstance(e, ast.Name):
                                 bound[e.id] = k
 
-            def col_index(e):
-                if isinstance(e, ast.Subscript) and \
-                        isinstance(e.value, ast.Name) and e.value.id == row \
-                        and isinstance(e.slice, ast.Constant):
-                    return e.slice.value
-                if isinstance(e, ast.Name) and e.id in bound:
-                    return bound[e.id]
-                return None
+            def col_indices(e):
+                """column positions of the row that e is computed from"""
+                out = []
+                for x in ast.walk(e):
+                    if isinstance(x, ast.Subscript) and \
+                            isinstance(x.value, ast.Name) and \
+                            x.value.id == row and \
+                            isinstance(x.slice, ast.Constant):
+                        out.append(x.slice.value)
+                    elif isinstance(x, ast.Name) and x.id in bound:
+                        out.append(bound[x.id])
+                    elif isinstance(x, ast.Name) and x.id != row:
+                        v = through_copies(f, x)
+                        if v is not x:
+                            out.extend(col_indices(v))
+                return out
 
             def expect(e, role, node, what):
                 nonlocal n_reads
-                i = col_index(e)
-                if i is None:
-                    return
-                n_reads += 1
-                have = layout[i] if 0 <= i < len(layout) else '?'
-                if have == role:
-                    ctx.ok(f, 'PRAGMA %s: column %d (%s) used as %s' % (
-                        pragma, i, have, what), node)
-                else:
-                    ctx.finding(f, node, '%s reads column %d of a PRAGMA %s '
-                                'row as %s, but that column is "%s" (%s is '
-                                'column %d): %s' % (
-                                    f.qualname, i, pragma, what, have, role,
-                                    layout.index(role),
-                                    'the referenced column is compared with '
-                                    'the referencing table\'s own column '
-                                    'name, so references to a renamed column '
-                                    'are never found and never rewritten'
-                                    if pragma == 'foreign_key_list' else
-                                    'the index state read from the database '
-                                    'is wrong'),
-                                key='pragma-column:%s:%s' % (pragma, role))
-            for n in ast.walk(loop):
+                for i in col_indices(e):
+                    n_reads += 1
+                    have = layout[i] if 0 <= i < len(layout) else '?'
+                    if have == role:
+                        ctx.ok(f, 'PRAGMA %s: column %d (%s) used as %s' % (
+                            pragma, i, have, what), node)
+                    else:
+                        ctx.finding(
+                            f, node, '%s reads column %d of a PRAGMA %s row '
+                            'as %s, but that column is "%s" (%s is column '
+                            '%d): %s' % (
+                                f.qualname, i, pragma, what, have, role,
+                                layout.index(role),
+                                'the referenced column is compared with the '
+                                'referencing table\'s own column name, so '
+                                'references to a renamed column are never '
+                                'found and never rewritten'
+                                if pragma == 'foreign_key_list' else
+                                'the index state read from the database is '
+                                'wrong'),
+                            key='pragma-column:%s:%s' % (pragma, role))
+            # a comprehension over the rows that is itself a dict value
+            if isinstance(scope, (ast.ListComp, ast.GeneratorExp)) and \
+                    pragma == 'index_info':
+                for d in walk_no_nested(f.node):
+                    if isinstance(d, ast.Dict):
+                        for k, v in zip(d.keys, d.values):
+                            if v is scope and const_str(k) == 'columns':
+                                expect(scope.elt, 'name', d,
+                                       'the column name')
+            for n in ast.walk(scope):
                 if isinstance(n, ast.Compare) and len(n.ops) == 1 and \
-                        isinstance(n.ops[0], (ast.Eq, ast.NotEq)):
+                        isinstance(n.ops[0], (ast.Eq, ast.NotEq)) and \
+                        pragma == 'foreign_key_list':
                     sides = [n.left, n.comparators[0]]
-                    for a, b in (sides, sides[::-1]):
-                        if isinstance(a, ast.Name) and a.id in params and \
-                                pragma == 'foreign_key_list':
-                            if 'table' in a.id:
-                                expect(b, 'table', n, 'the referenced table '
-                                       '(compared with %s)' % a.id)
-                            elif 'col' in a.id:
-                                expect(b, 'to', n, 'the referenced column '
-                                       '(compared with %s)' % a.id)
-                if isinstance(n, ast.Dict) and pragma == 'index_list':
+                    for a_, b_ in (sides, sides[::-1]):
+                        if isinstance(a_, ast.Name) and a_.id in params:
+                            if 'table' in a_.id:
+                                expect(b_, 'table', n, 'the referenced table '
+                                       '(compared with %s)' % a_.id)
+                            elif 'col' in a_.id:
+                                expect(b_, 'to', n, 'the referenced column '
+                                       '(compared with %s)' % a_.id)
+                if isinstance(n, ast.Dict):
                     for k, v in zip(n.keys, n.values):
-                        if const_str(k) == 'unique':
-                            for x in ast.walk(v):
-                                expect(x, 'unique', n, 'the unique flag')
+                        if const_str(k) == 'unique' and \
+                                pragma == 'index_list':
+                            expect(v, 'unique', n, 'the unique flag')
+                        if const_str(k) == 'columns' and \
+                                pragma == 'index_info' and \
+                                isinstance(v, (ast.ListComp,
+                                               ast.GeneratorExp)):
+                            expect(v.elt, 'name', n, 'the column name')
                 if isinstance(n, ast.Call) and call_name(n) == 'append' and \
                         pragma == 'index_info' and n.args and \
                         'columns' in unparse(n.func):
@@ -566,8 +582,7 @@ def r8_pragma_row_layout(ctx):
                 if isinstance(n, ast.Call) and \
                         _pragma_of(n) == 'index_info' and \
                         pragma == 'index_list':
-                    for x in ast.walk(n.args[0]):
-                        expect(x, 'name', n, 'the index name')
+                    expect(n.args[0], 'name', n, 'the index name')
     ctx.floor('PRAGMA row columns read by role in db.sqlite3', n_reads, 5)
 
 
